@@ -52,6 +52,17 @@ theorem swap_network_spec (n : Nat) (offset : Bool) :
   · intro q hq p hp
     exact swap_network_pair_once n offset p q hp hq
 
+/-- The callback is invoked `n(n-1)/2` times. -/
+theorem swap_network_call_count (n : Nat) (offset : Bool) :
+    (swapNetwork n offset).2.length * 2 = n * (n - 1) :=
+  OFV.C15.swapNetwork_call_count n offset
+
+/-- At every callback the smaller mode is on the left qubit (`p < q`): two modes cross exactly once, starting in
+ascending order. -/
+theorem swap_network_calls_ascending (n : Nat) (offset : Bool) :
+    ∀ e ∈ (swapNetwork n offset).2, e.1 < e.2.1 :=
+  fun e he => swapNetwork_call_ascending n offset e he
+
 /-- The network with `offset=True` is the mirror image, in time and in space, of the network with
 `offset=False`: the same pairs of modes meet in reverse order, on the mirrored qubit positions
 `(n-2-a, n-1-a)`.  (This is what makes a "network, then network with offset=True on the reversed
